@@ -38,6 +38,7 @@ func c18(c *Ctx) {
 	c18R8(c)
 	c18R9(c)
 	c18R10(c)
+	c18R11(c)
 }
 
 // c18R8: the varint reader accepts everything the writer emits.
